@@ -4,7 +4,7 @@ are preserved ... irrespective of coincidences". For the functions of its reduce
 (`keepsAxis_iff` in Props/C12.lean); for every other numpy function `FeArray.__wrap` types the result from its shape.
 This file proves that no rule reading shapes only can be right when Ne = nPg, that the rule of `__wrap` is right without
 coincidence, and exhibits the case it gets wrong (known finding "typed FeArray by shape coincidence", known_findings.txt).
-Tie: hand model of `__wrap`; the C12 harness runs the real functions on shapes with and without coincidence and finds exactly
+Tie: the statements and tests of `__wrap` are pinned by `Gen/C12/Align.lean` (`C12Align.alignForms_spec`); the C12 harness runs the real functions on shapes with and without coincidence and finds exactly
 this behaviour (block "the type of the result of numpy functions that consume or move an FE axis").
 -/
 import Mathlib.Tactic.Linarith
